@@ -31,7 +31,7 @@ MANIFEST = {
 RULE = ("(a) exhaustive: every single-message stream with a payload of <= 2 (quick) / <= 3 (thorough) bytes over {p0, p1, 0, x}, for a "
         "preamble with distinct and one with equal bytes, under EVERY cut set: model outcome (status, buffer, required, deliveries) vs the "
         "real code; (b) exhaustive on the real code against the message list itself: every stream of two messages with payloads <= 1 "
-        "(quick; <= 2 and at most 19 stream bytes thorough) bytes over that alphabet, with and without fillers, under every cut set (enumerated inside the probe); "
+        "(quick; <= 2 and at most 18 stream bytes thorough) bytes over that alphabet, with and without fillers, under every cut set (enumerated inside the probe); "
         "(c) random well-formed streams (0..6 messages, payload 0..40 or up to 70000 bytes, payload bytes biased to the preamble bytes, "
         "fillers free of p0, random preambles incl. equal bytes and zero bytes) under random chunkings incl. empty chunks: model vs code "
         "and code vs message list vs Spec stream_parse; (d) malformed streams (garbage, lone p0, lying/truncated headers): model vs code; "
@@ -87,8 +87,18 @@ def small_messages(p, maxpayload):
             yield conn.message(p, 1, bytes(pl))
 
 
+MAX_REPORTS = 5
+
+
+def enough(ctx):
+    """A broken implementation fails thousands of cases: a handful of replay files is enough."""
+    return len(ctx.violations) >= MAX_REPORTS
+
+
 def observe(ctx, probe, p, chunks, expected, what, extra=None):
     """Run the real code on (p, chunks); the property holds iff the deliveries are exactly `expected` and nothing is left pending."""
+    if enough(ctx):
+        return None
     r = conn.parse_ok(probe.ask("M %s %s" % (p.hex(), " ".join(conn.hx(c) for c in chunks)))[0])
     if r[0] == "crash":
         rep = {"preamble": p, "chunks": chunks, "expected": expected, "detail": "probe died: " + r[4][:600], "finding_key": "memory-error"}
@@ -108,7 +118,7 @@ def correspond(ctx, probe, p, chunks, what):
     """Model vs real code on one chunk list (any input). Returns the model outcome."""
     m = conn.model_outcome(ctx.km.call("conn_feed", p, chunks))
     r = conn.parse_ok(probe.ask("M %s %s" % (p.hex(), " ".join(conn.hx(c) for c in chunks)))[0])
-    if m != r[:4]:
+    if m != r[:4] and len(ctx.broken) < MAX_REPORTS:
         ctx.tie_broken("correspondence IConnection::OnDataReceived vs Conn.feed (%s)" % what,
                        {"preamble": p.hex(), "chunks": [c.hex() for c in chunks], "model": repr(m), "code": repr(r)[:800]})
     return m, r
@@ -186,6 +196,8 @@ def _run(ctx, probe, exe):
     maxp = 3 if not ctx.quick or mult > 1 else 2
     for p in (b"\xaa\x55", b"\x7e\x7e"):
         for m in small_messages(p, maxp):
+            if enough(ctx) or len(ctx.broken) >= MAX_REPORTS:
+                break
             for stream in (m, b"\x01" + m + b"\x00" if p[0] != 1 else m):
                 n = 1 << (len(stream) - 1)
                 a = [conn.model_outcome(v) for v in ctx.km.call("conn_feed_cuts", p, stream)]
@@ -197,13 +209,15 @@ def _run(ctx, probe, exe):
                     ctx.tie_broken("correspondence OnDataReceived vs Conn.feed (exhaustive cut sets)",
                                    {"preamble": p.hex(), "stream": stream.hex(), "mask": bad})
                     break
-                if any(x[3] != [m] or x[1] != b"" for x in a):
+                if any(x[3] != [m] or x[1] != b"" for x in a) and not enough(ctx):
                     ctx.violation("single message not reassembled under some cut set",
                                   {"preamble": p, "chunks": [stream], "expected": [m], "all_cuts": True, "finding_key": "reassembly:cuts1"})
     # 2b random well-formed and malformed streams: model vs code, and the property itself on the well-formed ones
-    n = ctx.budget(3000, 60000) * mult
+    n = ctx.budget(3000 * mult, 60000)
     recheck = []
     for i in range(n):
+        if enough(ctx):
+            break
         p = conn.random_preamble(rng)
         kind = rng.random()
         if kind < 0.55:
@@ -235,7 +249,7 @@ def _run(ctx, probe, exe):
             s = conn.malformed_stream(rng, p)
             chunks = conn.random_chunking(rng, s)
             m, r = correspond(ctx, probe, p, chunks, "malformed stream")
-            if r[0] == "crash":
+            if r[0] == "crash" and not enough(ctx):
                 ctx.violation("sanitizer report / crash of the real code on a malformed stream",
                               {"preamble": p, "chunks": chunks, "expected": None, "detail": r[4][:600], "finding_key": "memory-error"})
             ctx.case((p, tuple(chunks)), nontrivial=bool(m[3]) or bool(m[1]))
@@ -251,7 +265,7 @@ def _run(ctx, probe, exe):
             got = [conn.unhx(x) for x in t[2:]] if t[0] == "raw" else None
             if got != a:
                 ctx.tie_broken("correspondence OnDataReceived (raw receiver) vs Conn.feed_raw", {"chunks": [c.hex() for c in chunks]})
-            if got != [c for c in chunks if c]:
+            if got != [c for c in chunks if c] and not enough(ctx):
                 ctx.violation("raw receiver did not see every non-empty chunk unmodified",
                               {"raw": True, "chunks": chunks, "observed": got, "finding_key": "raw"})
             ctx.case(("raw", tuple(chunks)), nontrivial=bool(s))
@@ -265,7 +279,7 @@ def _search(ctx, probe, exe):
     rng = ctx.rng
     # exhaustive two-message streams under every cut set, enumerated inside the probe
     thorough = not ctx.quick or bool(ctx.broken)
-    maxp, maxlen = (2, 19) if thorough else (1, 18)
+    maxp, maxlen = (2, 18) if thorough else (1, 18)
     lines, keys = [], []
     for p in (b"\xaa\x55", b"\x7e\x7e"):
         ms = list(small_messages(p, maxp))
@@ -290,13 +304,15 @@ def _search(ctx, probe, exe):
         ncases, nfail = int(t[1]), int(t[2])
         ctx.case(("cuts2", p, s), n=ncases)
         ctx.count("exhaustive_two_message_cutsets", ncases)
-        if nfail:
+        if nfail and not enough(ctx):
             chunks = conn.cut(s, int(t[3]))
             ctx.violation("two-message stream not reassembled under cut mask %s" % t[3],
                           {"preamble": p, "chunks": chunks, "expected": msgs, "finding_key": "reassembly:cuts2"})
     # random long streams against the message list
     n = ctx.budget(300, 6000)
     for i in range(n):
+        if enough(ctx):
+            break
         p = conn.random_preamble(rng)
         items, tail = conn.wellformed_stream(rng, p, nmsgs=rng.randint(1, 40), maxpayload=rng.choice([8, 64, 600]))
         s = conn.stream_of(items, tail)
